@@ -133,6 +133,8 @@ class Total:
             cur = self.violations.setdefault(sig, [])
             for v in lst:
                 if len(cur) < MAX_VIOL_PER_SIG:
+                    v = dict(v)
+                    v['unit_idx'] = idx
                     cur.append(v)
         self.unit_digests[idx] = p['digest']
         self._samples_by_unit = getattr(self, '_samples_by_unit', {})
@@ -164,6 +166,16 @@ def _run_unit(job):
         return idx, acc.pack(), None
     except BaseException:  # noqa
         return idx, None, traceback.format_exc()
+
+
+def _unit_signatures(modname, idx, arg):
+    """violation signatures of one work unit executed in a freshly forked process"""
+    ctx = mp.get_context('fork')
+    with ctx.Pool(1, initializer=_worker_init, maxtasksperchild=1) as pool:
+        _, packed, err = pool.apply(_run_unit, ((modname, idx, arg),))
+    if err or packed is None:
+        return []
+    return list(packed['violations'].keys())
 
 
 def _worker_init():
@@ -285,7 +297,29 @@ def main(argv=None):
             json.dump({'property': prop, 'signature': v['sig'], 'what': v['what'], 'case': v['case'],
                        'reproduced_twice': ok}, f, indent=1, default=_json_default)
         if not ok:
-            # not a function of its recorded case alone: state leaked from an earlier execution of the same process
+            # not a function of its recorded case alone: state surviving from an earlier execution of the same work unit.
+            # A work unit always runs in a freshly forked process, so the unit itself is a replayable history: re-run it
+            # twice; if the same signature comes back both times the violation is confirmed with the unit as its replay.
+            uidx = v.get('unit_idx')
+            again_ok = uidx is not None
+            if again_ok:
+                for _ in range(2):
+                    if v['sig'] not in _unit_signatures(modname, uidx, units[uidx]):
+                        again_ok = False
+                        break
+            if again_ok:
+                with open(path, 'w') as f:
+                    json.dump({'property': prop, 'signature': v['sig'], 'what': v['what'], 'case': v['case'],
+                               'reproduced_twice': False, 'unit': units[uidx], 'unit_reproduced_twice': True,
+                               'note': 'the recorded case alone does not reproduce it; the work unit (a fixed sequence of '
+                                       'executions in a fresh process) does: state survives from an earlier execution'},
+                              f, indent=1, default=_json_default)
+                print(f"VIOLATION property={prop} replay={path}")
+                print(f"  signature: {v['sig']}\n  what: {v['what']}\n  (reproduced by re-running its work unit in a fresh process; "
+                      f"the single case alone does not show it)")
+                replay_paths.append(path)
+                rc = 1
+                continue
             unconfirmed.append((v['sig'], path))
             continue
         print(f"VIOLATION property={prop} replay={path}")
@@ -349,6 +383,15 @@ def do_replay(mod, prop, path):
         rec = json.load(f)
     case = rec['case']
     res = mod.replay(case)
+    if not any(v['sig'] == rec.get('signature') for v in res) and rec.get('unit') is not None:
+        # recorded as reproducible from its work unit only (state surviving between executions)
+        ctx = mp.get_context('fork')
+        with ctx.Pool(1, initializer=_worker_init, maxtasksperchild=1) as pool:
+            _, packed, err = pool.apply(_run_unit, ((mod.__name__, 0, rec['unit']),))
+        if packed is not None:
+            for sig, lst in packed['violations'].items():
+                if sig == rec.get('signature'):
+                    res = res + [{'sig': sig, 'what': lst[0]['what']}]
     findings = load_findings()
     rc = 0
     if not res:
